@@ -584,12 +584,26 @@ theorem renderToks_marker_iff (ts : List Token) (h : ListOK ts) :
 
 /-- one well-formed token: its rendering contains the marker iff the token-level test `tokIE` says so — a comment
     whose body starts with ws* `[` ws* `if`; an attribute value, declaration body or processing instruction
-    that contains the marker; never a tag name, an end tag, text or a reference -/
+    that contains the marker; never a tag name, an end tag, text outside raw-text elements (`text_no_marker`) or
+    a reference -/
 theorem token_marker_iff (t : Token) (h : TokOK t) : hasIEMarker (renderTok t) = tokIE t :=
   tokIE_render t h
 
+/-- text outside raw-text elements (a `<` / `&` singleton, or a run without `<` and `&`) never tests positive:
+    the `.data` clause of `tokIE` / `TokNoIE` speaks about the content of `script` / `style` only -/
+theorem text_no_marker (s : Str) (h : TokOK (.data s)) : tokIE (.data s) = false ∧ TokNoIE (.data s) :=
+  ⟨tokIE_data_of_tokOK s h, tokNoIE_data_of_tokOK s h⟩
+
+/-- the same for every token of a list in the serialiser's image (`ListOK.tokOK`: well formed, or the start tag
+    / the content of a raw-text element).  The content of `script` / `style` is rendered as it is, and
+    `stripIEConditionals` works on the text without knowing about elements: the content tests positive iff it
+    contains the marker. -/
+theorem token_marker_iff_any (t : Token) (h : TokOK t ∨ RawTok t) : hasIEMarker (renderTok t) = tokIE t :=
+  tokIE_render_any t h
+
 /-- **C02g (serialiser output, on tokens).** The rendering of a token list in the serialiser's image contains
-    the marker iff one of its tokens tests positive. -/
+    the marker iff one of its tokens tests positive (raw-text elements included; for their content token the
+    test is "the raw text contains the marker"). -/
 theorem renderToks_marker_iff_tokens (ts : List Token) (h : ListOK ts) :
     hasIEMarker (renderToks ts) = ts.any tokIE :=
   hasIEMarker_renderToks_tok ts h
@@ -598,8 +612,12 @@ theorem renderToks_marker_iff_tokens (ts : List Token) (h : ListOK ts) :
 theorem tokNoIE_reading (t : Token) : TokNoIE t ↔ tokIE t = false := tokNoIE_iff t
 
 /-- **C02g (serialiser output).** The condition on tokens (`TokNoIE`): no comment's body starts with
-    ws* `[` ws* `if`; no attribute value, declaration body or processing instruction contains the marker
-    (tags, end tags, text and references never do).  Then the rendering has no marker. -/
+    ws* `[` ws* `if`; no attribute value, declaration body, processing instruction or content of a raw-text
+    element (`script` / `style`) contains the marker (tags, end tags, text outside raw-text elements and
+    references never do).  Then the rendering has no marker.
+
+    Without the clause on data tokens — `TokNoIE (.data _) = True`, as it was while `ListOK` had no raw-text
+    elements — the statement is FALSE on the wider `ListOK`: `rawCondDoc` below. -/
 theorem renderToks_no_marker (ts : List Token) (h : ListOK ts) (hm : ∀ t ∈ ts, TokNoIE t) :
     hasIEMarker (renderToks ts) = false :=
   renderToks_no_marker_of ts h hm
@@ -824,7 +842,7 @@ theorem sampleDocIE_noIE : ∀ t ∈ sampleDocIE, TokNoIE t := by
     simp at hv
     subst hv
     decide
-  · trivial
+  · show hasIEMarker _ = false; decide
   · trivial
   · show condStart _ = false; decide
   · intro x hx; simp at hx
@@ -834,6 +852,39 @@ example : parseText (renderToks sampleDocIE) = some (.doc (Spec.build sampleDocI
     intro t ht
     simp [sampleDocIE] at ht
     rcases ht with rfl | rfl | rfl | rfl | rfl | rfl | rfl <;> decide) sampleDocIE_noIE
+
+/-- a document with a raw-text element that meets the token-level condition: the script's content has `<`, `&&`,
+    an end tag — but no opener -/
+theorem sampleRawDoc_noIE : ∀ t ∈ sampleRawDoc, TokNoIE t := by
+  intro t ht
+  simp [sampleRawDoc] at ht
+  rcases ht with rfl | rfl | rfl | rfl | rfl | rfl
+  · show hasIEMarker _ = false; decide
+  · show hasIEMarker _ = false; decide
+  · intro x hx; simp at hx
+  · show hasIEMarker _ = false; decide
+  · trivial
+  · intro x hx; simp at hx
+
+example : parseText (renderToks sampleRawDoc) = some (.doc (Spec.build sampleRawDoc).1 (Spec.build sampleRawDoc).2) :=
+  parseText_eq_spec sampleRawDoc sampleRawDoc_ok (by
+    intro t ht
+    simp [sampleRawDoc] at ht
+    rcases ht with rfl | rfl | rfl | rfl | rfl | rfl <;> decide) sampleRawDoc_noIE
+
+/-- the clause of `TokNoIE` on data tokens is needed: a script whose content holds a conditional comment is in the
+    serialiser's image (`ListOK.raw`; every other token meets the condition), its content token tests positive,
+    the rendering has the marker, and `stripIEConditionals` cuts the conditional out of the script's text -/
+def rawCondDoc : List Token :=
+  [.start "script".toList [], .data "a<!--[if IE]>b<![endif]-->c".toList, .end_ "script".toList]
+
+theorem rawCondDoc_ok : ListOK rawCondDoc :=
+  .raw (by decide) (by simp) (by decide) (by decide) .nil
+
+example : rawCondDoc.map tokIE = [false, true, false] := by decide
+example : hasIEMarker (renderToks rawCondDoc) = true := by
+  rw [renderToks_marker_iff_tokens _ rawCondDoc_ok]; decide
+example : stripIE (renderToks rawCondDoc) = "<script >ac</script>".toList := by decide
 
 /-- the token-level condition is needed: a comment token whose body starts with `[if` is in the serialiser's
     image, but `feed` strips it from the text — the element it stood in comes out empty -/
@@ -860,7 +911,7 @@ example : parseText (renderToks condComment)
     = some (.doc (Spec.build [.start "a".toList [], .end_ "a".toList]).1 (Spec.build [.start "a".toList [], .end_ "a".toList]).2) :=
   parseText_drops_conditional [.start "a".toList []] [.end_ "a".toList] "[if IE]><b>x</b><![endif]".toList
     (by decide) (by decide) (by decide) (by decide) (by decide) (Or.inl (by decide))
-    ⟨⟨tagOK_a, by decide, fun x hx => by simp at hx⟩, trivial, tagOK_a, trivial, trivial⟩
+    (.cons ⟨tagOK_a, by decide, fun x hx => by simp at hx⟩ trivial (.cons tagOK_a trivial .nil))
     (by intro t ht; simp at ht; rcases ht with rfl | rfl <;> decide)
 
 /-- number of children of the root element a parse gave -/
@@ -871,7 +922,7 @@ def rootKids : FeedResult → Option Nat
 def emptyA : List Token := [.start "a".toList [], .end_ "a".toList]
 
 theorem emptyA_ok : ListOK emptyA :=
-  ⟨⟨tagOK_a, by decide, fun x hx => by simp at hx⟩, trivial, tagOK_a, trivial, trivial⟩
+  .cons ⟨tagOK_a, by decide, fun x hx => by simp at hx⟩ trivial (.cons tagOK_a trivial .nil)
 
 theorem condComment_stripped : stripIE (renderToks condComment) = renderToks emptyA := by decide
 
